@@ -34,13 +34,21 @@ func runC10(o opts) error {
 		for i := 0; i < n; i++ {
 			scns = append(scns, c10.Gen(rng))
 		}
+		// query and spinner scenarios come from a generator of their own (the stream above stays what it was)
+		rng2 := rand.New(rand.NewSource(o.seed*7919 + 1))
+		for i := 0; i < n/10; i++ {
+			scns = append(scns, c10.GenQuery(rng2))
+		}
+		for i := 0; i < n/40; i++ {
+			scns = append(scns, c10.GenSpin(rng2))
+		}
 	}
 	sink, err := trace.NewSink(o.out, o.shards)
 	if err != nil {
 		return err
 	}
 	raw := runChildren("c10child", o.out, scns, func(i int, msg string) any {
-		r := &c10.Result{Returned: true, Leaked: []string{}, Stuck: []string{}, Orders: [][]int{}, BSent: []int{}, BGot: []int{}, RWant: []int{}, RGot: []int{}}
+		r := c10.NewResult()
 		if strings.HasPrefix(msg, "race:") {
 			r.Race = msg
 		} else {
@@ -68,8 +76,11 @@ func runC10(o opts) error {
 		if r.BSent == nil {
 			r.BSent, r.BGot = []int{}, []int{}
 		}
+		if r.Queries == nil {
+			r.Queries = []c10.QObs{}
+		}
 		ev := trace.Ev{"ev": "run", "returned": r.Returned, "what": r.What, "leaked": r.Leaked, "stuck": r.Stuck,
-			"orders": r.Orders, "bsent": r.BSent, "bgot": r.BGot, "panic": r.Panic, "race": r.Race, "rwant": r.RWant, "rgot": r.RGot}
+			"orders": r.Orders, "bsent": r.BSent, "bgot": r.BGot, "panic": r.Panic, "race": r.Race, "rwant": r.RWant, "rgot": r.RGot, "queries": r.Queries, "end": sc.End}
 		sink.Put(&trace.Scenario{Ord: i, Desc: sc, Note: r.Panic + r.Race + r.What, Sig: sc.Kind, Events: []trace.Ev{{"ev": "reset"}, ev}})
 	}
 	return sink.Close()
